@@ -159,7 +159,7 @@ def resign(ev, k):
 
 class Authentic(Sub):
     name = "authentic"
-    examples = {"quick": 3000, "thorough": 80000}
+    examples = {"quick": 3000, "thorough": 24000}
     shards = {"quick": 12, "thorough": 16}
     rule = RULE
 
@@ -280,7 +280,7 @@ def klass(why):
 
 class ServiceEvents(Sub):
     name = "service-events"
-    examples = {"quick": 300, "thorough": 5000}
+    examples = {"quick": 300, "thorough": 2400}
     shards = {"quick": 4, "thorough": 8}
     rule = "add_service_event with generated content/tags/kind; non-trivial = tags given as dict or encrypt=True"
 
